@@ -34,6 +34,8 @@ type SpecEnv struct {
 	li      *loopInfo
 	fnName  string
 	loopBound *Term
+	// calleePost: the clause is an assumed postcondition of a callee: an object it calls fresh was allocated before it returned
+	calleePost bool
 }
 
 func (env *SpecEnv) child() *SpecEnv {
@@ -252,6 +254,13 @@ func (env *SpecEnv) evalLazy(e Expr) specVal {
 			bv := c.BoundVar(b.Name, s)
 			bound = append(bound, bv)
 			ne.vars[b.Name] = specVal{v: leaf(bv), t: t}
+			if t != nil && s == SRef {
+				// a binder of pointer type ranges over pointers of that type: its instances and skolem constants are typed
+				// (a *T cannot point into a backing array whose element type cannot contain a T)
+				if pt, ok := t.Underlying().(*types.Pointer); ok {
+					env.u.ptrFacts = append(env.u.ptrFacts, ptrFact{bv, pt.Elem(), nil, len(env.u.assumptions)})
+				}
+			}
 		}
 		body := ne.EvalBool(x.Body)
 		if x.Forall {
@@ -612,6 +621,9 @@ func (env *SpecEnv) evalCall(x *ECall) specVal {
 			if env.old != nil {
 				bound = env.old.st.alloc
 			}
+			if env.calleePost && env.old != nil {
+				return specVal{v: leaf(c.And(c.Neq(v, c.Nil()), c.Ge(c.Root(v), bound), c.Lt(c.Root(v), env.st.alloc), c.Eq(c.PathOf(v), c.PNil()))), t: types.Typ[types.Bool]}
+			}
 			return specVal{v: leaf(c.And(c.Neq(v, c.Nil()), c.Ge(c.Root(v), bound), c.Eq(c.PathOf(v), c.PNil()))), t: types.Typ[types.Bool]}
 		case "freshroot":
 			v := env.evalTerm(x.Args[0])
@@ -621,6 +633,9 @@ func (env *SpecEnv) evalCall(x *ECall) specVal {
 			bound := env.st.alloc
 			if env.old != nil {
 				bound = env.old.st.alloc
+			}
+			if env.calleePost && env.old != nil {
+				return specVal{v: leaf(c.And(c.Ge(c.Root(v), bound), c.Lt(c.Root(v), env.st.alloc))), t: types.Typ[types.Bool]}
 			}
 			return specVal{v: leaf(c.Ge(c.Root(v), bound)), t: types.Typ[types.Bool]}
 		case "loopfresh":
